@@ -509,6 +509,14 @@ class A_ASSOCIATE_RQ(PDU):
             elif isinstance(item, UserInformationItem):
                 primitive.user_information = item.to_primitive()
 
+            # Part 8, Section 9.3.2: the variable items of an A-ASSOCIATE-RQ
+            #   are Presentation Context (RQ) Items, not (AC) Items
+            elif isinstance(item, PresentationContextItemAC):
+                raise ValueError(
+                    "An A-ASSOCIATE-RQ PDU shall not contain Presentation "
+                    "Context (AC) Items"
+                )
+
         return primitive
 
     @property
@@ -895,6 +903,14 @@ class A_ASSOCIATE_AC(PDU):
             # Add user information
             elif isinstance(item, UserInformationItem):
                 primitive.user_information = item.to_primitive()
+
+            # Part 8, Section 9.3.3: ... and those of an A-ASSOCIATE-AC are
+            #   Presentation Context (AC) Items
+            elif isinstance(item, PresentationContextItemRQ):
+                raise ValueError(
+                    "An A-ASSOCIATE-AC PDU shall not contain Presentation "
+                    "Context (RQ) Items"
+                )
 
         # 0x00 = Accepted
         primitive.result = 0x00
